@@ -276,8 +276,7 @@ def content_xml(sheets, opts=None, fault=None):
     "cell": cell element index, "value": text} overrides one repeat attribute with an arbitrary text.
     """
     opts = options(**(opts or {}))
-    if not 1 <= len(sheets):
-        raise ValueError("at least one sheet is required")
+    # no sheet at all is a well-formed document too (an empty office:spreadsheet element): every sheet is missing then
     nl = "\n" if opts["indent"] else ""
 
     def ind(level):
